@@ -439,6 +439,53 @@ def run_damv(ctx: Ctx) -> None:
                 s.value.args[0], ast.Name) and roles.get(
                 s.value.args[0].id) == "S3":
             s3m = nm
+    # other spellings of an order-preserving copy, and copies in another
+    # order (recognised, and wrong: the greedy pairing takes the FIRST
+    # fitting square of the non-increasing list, i.e. the largest)
+    s3_reordered = None
+    for s in body:
+        nm = _tname(s)
+        if nm is None or s3m is not None:
+            continue
+        v_ = s.value
+        if isinstance(v_, ast.Subscript) and isinstance(
+                v_.value, ast.Name) and roles.get(
+                v_.value.id) == "S3" and isinstance(v_.slice, ast.Slice) \
+                and v_.slice.lower is None and v_.slice.upper is None:
+            st_ = v_.slice.step
+            if st_ is None or ast.unparse(st_) == "1":
+                s3m = nm
+            elif ast.unparse(st_) in ("-1", "(-1)"):
+                s3m = nm
+                s3_reordered = ast.unparse(v_)
+        elif isinstance(v_, ast.List) and len(v_.elts) == 1 and isinstance(
+                v_.elts[0], ast.Starred) and isinstance(
+                v_.elts[0].value, ast.Name) and roles.get(
+                v_.elts[0].value.id) == "S3":
+            s3m = nm
+        elif isinstance(v_, ast.Call) and isinstance(
+                v_.func, ast.Name) and v_.func.id in (
+                "sorted", "reversed", "list") and v_.args:
+            inner_ = v_.args[0]
+            if isinstance(inner_, ast.Call) and isinstance(
+                    inner_.func, ast.Name) and inner_.func.id in (
+                    "sorted", "reversed") and inner_.args:
+                inner_src = inner_.args[0]
+            else:
+                inner_src = inner_
+            if isinstance(inner_src, ast.Name) and roles.get(
+                    inner_src.id) == "S3" and (
+                    v_.func.id != "list" or inner_ is not inner_src):
+                s3m = nm
+                s3_reordered = ast.unparse(v_)
+    if s3_reordered is not None:
+        ctx.ob("D3.2", fi, fi.node, False,
+               f"the working copy of S3 is `{s3_reordered}`: not in the "
+               "non-increasing order of S3, so the pairing of an S2 square "
+               "no longer takes the largest S3 square that fits beside it "
+               "(equation 6: S3 - ^S3 may keep wider squares and b1 grows)",
+               construct="set S3 - ^S3 order")
+        return
     match_loop = None
     rev_iter = False
     for s in body:
